@@ -111,7 +111,7 @@ var soundFamilies = []string{"framing", "der-edits", "body-r", "body-s", "values
 
 func sound(x *mon.Ctx) {
 	selfTest(x)
-	nb := x.Scale(150, 1200)
+	nb := x.Scale(100, 900)
 	for idx := 0; idx < nb; idx++ {
 		for _, fam := range soundFamilies {
 			c := x.Begin("sound base=%d family=%s (base signature: key/uid/msg/k from NewRand(seed,\"c06.sound.base\",%d))", idx, fam, idx)
@@ -286,12 +286,12 @@ var substitutions = []struct {
 }
 
 // body: single-byte substitutions inside the content octets of r or s. The quick
-// tier samples eight positions per base signature (every position and
+// tier samples six positions per base signature (every position and
 // substitution is met across the bases); the thorough tier takes them all.
 func (b *base) body(c *mon.Case, which string, off, l int, all bool) {
 	pos := c.R.Perm(l)
-	if !all && len(pos) > 8 {
-		pos = pos[:8]
+	if !all && len(pos) > 6 {
+		pos = pos[:6]
 	}
 	for _, p := range pos {
 		seen := map[byte]bool{b.sig[off+p]: true}
